@@ -185,7 +185,12 @@ let check_case (c : case) : unit =
     (match real with Panic _ -> report_hit c "C14.panic" "panic in parse_layout_from_json/convert" "Ok or Err" | _ -> ());
     (match c.r2 with Some (Panic _) -> report_hit c "C14.panic" "panic while reloading the saved layout" "Ok or Err" | _ -> ());
     List.iter (fun x -> report_hit c "C14.panic" ("panic in " ^ x) "no panic on an accepted layout") c.x;
-    List.iter (fun w -> report_diff c "SERDE" w "to_writer_pretty + from_str = to_value") c.w;
+    List.iter (fun w ->
+        if String.length w >= 21 && String.sub w 0 21 = "load_layout_from_file" then
+          (* the service's own reload of the file written with to_writer_pretty answers differently from the
+             in-memory reload (which the model is compared with): the saved layout does not reload as saved *)
+          report_hit c "C15.roundtrip" w "load_layout_from_file(saved file) = parse_layout_from_json + convert (to_value)"
+        else report_diff c "SERDE" w "to_writer_pretty + from_str = to_value") c.w;
     (* C15 on a basic layout serialised by the real serde impl *)
     (match c.basic with
      | Some l0 ->
